@@ -57,4 +57,11 @@ theorem splitDots_ne_nil (cs : List Nat) : splitDots cs ≠ [] := by
     · simp
     · split <;> simp
 
+theorem dropLast_append_of_getLast? : ∀ (s : List Nat) (a : Nat), s.getLast? = some a → s.dropLast ++ [a] = s
+  | [], _, h => by simp at h
+  | [x], a, h => by simp at h; simp [h]
+  | x :: y :: r, a, h => by
+    have := dropLast_append_of_getLast? (y :: r) a (by simpa [List.getLast?_cons_cons] using h)
+    simp [this]
+
 end Eav
